@@ -229,7 +229,7 @@ loop:
 			if pp != nil {
 				pp.write(ch.Data)
 			}
-			simlog.Add(simlog.Event{Kind: "os.write", Subj: p.Token, Pid: p.Pid, N: ch.Stream, A: fmt.Sprintf("%q", clip(ch.Data, 60))})
+			simlog.Add(simlog.Event{Kind: "os.write", Subj: p.Token, Pid: p.Pid, N: ch.Stream, A: fmt.Sprintf("%q", clip(ch.Data, 60)), Data: ch.Data})
 			w.leave()
 		case 2:
 			// flush output scheduled at or before the end of life
@@ -243,7 +243,7 @@ loop:
 				if pp != nil {
 					pp.write(ch.Data)
 				}
-				simlog.Add(simlog.Event{Kind: "os.write", Subj: p.Token, Pid: p.Pid, N: ch.Stream, A: fmt.Sprintf("%q", clip(ch.Data, 60))})
+				simlog.Add(simlog.Event{Kind: "os.write", Subj: p.Token, Pid: p.Pid, N: ch.Stream, A: fmt.Sprintf("%q", clip(ch.Data, 60)), Data: ch.Data})
 			}
 			w.leave()
 			break loop
